@@ -12,7 +12,7 @@ from . import builtins as BI
 
 OUT = os.path.join(os.path.dirname(os.path.dirname(os.path.abspath(__file__))), 'out')
 
-BUDGETS = {'quick': (6000, 20, 20), 'thorough': (30000, 90, 60)}
+BUDGETS = {'quick': (5000, 8, 0), 'thorough': (30000, 60, 0)}
 
 
 def used_names(exprs):
